@@ -13,11 +13,24 @@ the row is on the exact stream (all feasible logits equal, 2^j of them, dyadic t
 Spec-on-impl (every run, directly on what the implementation returned, also with tanh clipping and on Gaussian
 logits): normalised, zero mass on masked actions, a most likely feasible action kept and still a mode, top-k rank
 rule, top-p kept mass, shift invariance, greedy / sampled actions unmasked.  A failing input is reported through
-ctx.failure(signature, replay)."""
+ctx.failure(signature, replay).
+
+calculate_entropy (rl4co.utils.ops): the stacked outputs of process_logits over T steps are handed to the real
+calculate_entropy; the model (Decoding/Entropy.v at (Qc, lnQ), Harness/HC10.v check_ent) evaluates sum_t -sum_a p log p
+on the exact step distributions and compares the VALUE (1e-5 float32 / 1e-8 float64); spec-on-impl: the same value from
+python Fractions, H >= 0, H = T ln k on uniform rows.  Guard: a +inf log-probability in ONE row of a batch of >= 2 rows
+must raise (check_entg).
+Batch-level guards (Decoding/BatchGuards.v, check_guard): DecodingStrategy.greedy / sampling and BeamSearch._step are called
+directly on batches of >= 2 rows whose masks are INCONSISTENT with the probabilities in none / one / several / all rows;
+the model's per-row verdict lifted to the batch (raise as soon as one row selects a masked action; sampling draws again)
+is compared with what the call did.
+Every direct call into rl4co goes through vt.decode_guard.call (wall clock): a call that does not return is reported as
+"<fn>: call into rl4co does not terminate" with its input and the function is not called again."""
 import math
 from fractions import Fraction
 
 from vt.common import Ctx, cq, clist, cz, cnat, cnatlist, cboollist, coq_eval_shards
+from vt import decode_guard as dg
 
 HEADER = ("From Coq Require Import List ZArith QArith.\nFrom RL4CO Require Import Harness.HC10.\n"
           "Import ListNotations.\nOpen Scope Q_scope.\n")
@@ -28,6 +41,16 @@ PROB_TOL = Fraction(1, 100000)
 
 SIG_SHIFT_TANH = "process_logits: shift-invariance-false-under-tanh-clipping"
 SIG_TINY_P = "top_p: positive-top_p-below-float-resolution-removes-every-action"
+SIG_ENT_VALUE = "calculate_entropy: value-is-not-the-sum-over-steps-of-minus-sum-p-log-p"
+SIG_ENT_NEG = "calculate_entropy: negative-entropy"
+SIG_ENT_GUARD = "calculate_entropy: non-finite-row-accepted-next-to-a-finite-one"
+SIG_ENT_RAISE = "calculate_entropy: raises-on-legal-log-probabilities"
+SIG_GREEDY_BATCH = "greedy: masked-action-returned-for-one-row-of-a-batch"
+SIG_GREEDY_RAISE = "greedy: raises-although-every-row's-arg-max-is-allowed"
+SIG_SAMPLING_BATCH = "sampling: masked-or-zero-probability-action-returned-for-one-row-of-a-batch"
+SIG_SAMPLING_RAISE = "sampling: raises-instead-of-resampling-a-masked-draw"
+SIG_BEAM_BATCH = "BeamSearch._step: masked-action-accepted-for-one-beam-of-a-batch"
+SIG_BEAM_RAISE = "BeamSearch._step: raises-although-every-selected-action-is-allowed"
 
 
 # ----------------------------------------------------------------------------------------------- exact reference
@@ -166,9 +189,19 @@ def coq_case(tm, td, k, p, z, mask, isupp, iprobs, greedy, sampled, tol, margin)
 
 # ----------------------------------------------------------------------------------------------- the check
 def run(ctx: Ctx, proofs_ok: bool):
+    try:
+        _run(ctx, proofs_ok)
+    except dg.DecodeTimeout as exc:      # a guarded call outside the streams' own handlers (process_logits itself) did not return
+        ctx.failure(dg.signature(exc.fn_name), {"unit": exc.fn_name, "kind": "no-return", "what": str(exc),
+                                                "note": "the call is made on rows of <= 12 logits z*ln2 with a mask; see vt/props/c10.py call_pl"},
+                    tag="no_return")
+
+
+def _run(ctx: Ctx, proofs_ok: bool):
     import torch
     from tensordict import TensorDict
-    from rl4co.utils.decoding import process_logits, DecodingStrategy, Greedy, Sampling
+    from rl4co.utils.decoding import process_logits, DecodingStrategy, Greedy, Sampling, BeamSearch
+    from rl4co.utils.ops import calculate_entropy
 
     rng = ctx.rng
     tier = ctx.tier
@@ -187,7 +220,11 @@ def run(ctx: Ctx, proofs_ok: bool):
                 "exact stream: all feasible logits equal, 1/2/4/8 of them, dyadic top_p (float arithmetic exact, "
                 "zero margin); float stream (spec-on-impl only): Gaussian logits, temperature 0.3..3, "
                 "tanh_clipping in {0, 10}. non-trivial = at least 2 feasible actions and an active filter "
-                "(top_k > 0 or 0 < top_p < 1); distinct by hash of the inputs")
+                "(top_k > 0 or 0 < top_p < 1); distinct by hash of the inputs.  calculate_entropy: logprobs[B<=4, T<=4, N<=8] stacked from the "
+                "real process_logits (|z| <= 12, top_k in {0,1,2,3,N}, top_p off), the audit input log([[[.5,.5]]]), uniform over 1/2/3/4/8, "
+                "point masses, (1/2,1/4,1/4); guard: batches of 2..4 rows with a +inf log-probability in none / one / several / all rows. "
+                "Batch guards: greedy / sampling / BeamSearch._step (stubbed _make_beam_step) on batches of 2..5 rows of dyadic "
+                "probabilities k/64 whose selection is masked in none / exactly one / several / all rows")
     ctx.assumptions += [
         "mask_logits=True (the documented switch mask_logits=False disables masking by design)",
         "logits finite, mask has at least one True, temperature > 0, 0 <= top_p <= 1 (the code asserts top_p <= 1)",
@@ -197,12 +234,26 @@ def run(ctx: Ctx, proofs_ok: bool):
         "torch.sort is modelled as a stable ascending sort (observed on CPU); a different tie-breaking is reported "
         "as code 9 (support equal up to the choice among equal logits), which no C10 theorem depends on",
         "torch.multinomial returns an index of positive weight (contract, hypothesis of C10_sampling_support)",
+        "entropy: the logarithm is abstract in the theorems (lg 1 = 0, lg(xy) = lg x + lg y, strictly increasing; instance (R, ln)); the "
+        "executable comparison uses lnQ, a 62-bit fixed-point evaluation of 2*atanh((m-1)/(m+1)) + e*ln2 whose error bound (< 2e-10) is "
+        "validated by Examples, not proved; tolerance 2e-5 (float32) / 1e-8 (float64) per decoding step",
+        "calculate_entropy's guard is modelled on entry classes (finite / -inf / +inf / nan after nan_to_num); finite log-probabilities "
+        "large enough to overflow exp are outside the stream",
+        "DecodingStrategy.sampling with a mask: rows without an allowed action of positive probability (the code's loop cannot end) are "
+        "outside the stream; every direct call runs under a wall-clock guard (vt/decode_guard.py)",
     ]
 
     ctx.trusted.append("vt/props/c10.py: ref_row (exact rank/cumulative-probability reference, used to place top_p thresholds and to gate the "
                        "shift check) and spec_row (the property evaluated on the implementation's output)")
     spec_fail = []          # (signature, replay)
     broken_cases = []
+    import time as _time
+    timing = ctx.extra.setdefault("timing_s", {})
+    _t = [_time.time()]
+
+    def mark(name):
+        timing[name] = round(_time.time() - _t[0], 1)
+        _t[0] = _time.time()
 
     def record_spec(sig, detail, x, mask, dt, cfg, lp):
         spec_fail.append((sig, {
@@ -213,8 +264,17 @@ def run(ctx: Ctx, proofs_ok: bool):
     def call_pl(x, mask, cfg, **over):
         kw = dict(cfg)
         kw.update(over)
-        return process_logits(x.clone(), mask.clone(), temperature=kw["temperature"], top_p=kw["top_p"],
-                              top_k=kw["top_k"], tanh_clipping=kw["tanh_clipping"], mask_logits=True)
+        return dg.call("process_logits", process_logits, x.clone(), mask.clone(), temperature=kw["temperature"], top_p=kw["top_p"],
+                       top_k=kw["top_k"], tanh_clipping=kw["tanh_clipping"], mask_logits=True)
+
+    def no_return(exc, x, mask, dt, cfg, lp=None):
+        """a guarded call into rl4co did not return: concrete failure with the input; the function is not called again"""
+        spec_fail.append((dg.signature(exc.fn_name), {
+            "unit": exc.fn_name, "what": "%s(...) did not return within %.0f s on this input" % (exc.fn_name, exc.secs),
+            "dtype": str(dt).replace("torch.", ""), "logits_hex": [hexlist(r) for r in x], "logits": [[float(v) for v in r] for r in x],
+            "mask": [[bool(b_) for b_ in r] for r in mask], "kwargs": cfg,
+            "logprobs_hex": None if lp is None else [hexlist(r) for r in lp], "kind": "no-return"}))
+        ctx.count("guarded_calls_that_did_not_return")
 
     def processed(x, cfg):
         y = torch.tanh(x) * cfg["tanh_clipping"] if cfg["tanh_clipping"] > 0 else x
@@ -227,15 +287,22 @@ def run(ctx: Ctx, proofs_ok: bool):
                   tanh_clipping=cfg["tanh_clipping"], mask_logits=True)
         try:
             g = Greedy(**kw)
-            td = g.step(x.clone(), mask.clone(), TensorDict({}, batch_size=[B]))
+            td = dg.call("Greedy.step", g.step, x.clone(), mask.clone(), TensorDict({}, batch_size=[B]))
             ga = [int(a) for a in td["action"]]
-            g2 = [int(a) for a in DecodingStrategy.greedy(lp, mask)]
+            g2 = [int(a) for a in dg.call("DecodingStrategy.greedy", DecodingStrategy.greedy, lp, mask)]
             s = Sampling(**kw)
-            td = s.step(x.clone(), mask.clone(), TensorDict({}, batch_size=[B]))
-            sampled = [set([int(a)]) for a in td["action"]]
+            sampled = [set() for _ in range(B)]
+            if not dg.dead("Sampling.step"):
+                td = dg.call("Sampling.step", s.step, x.clone(), mask.clone(), TensorDict({}, batch_size=[B]))
+                sampled = [set([int(a)]) for a in td["action"]]
             for _ in range(n_draws):
-                for r, a in enumerate(DecodingStrategy.sampling(lp, mask)):
+                if dg.dead("DecodingStrategy.sampling"):
+                    break
+                for r, a in enumerate(dg.call("DecodingStrategy.sampling", DecodingStrategy.sampling, lp, mask)):
                     sampled[r].add(int(a))
+        except dg.DecodeTimeout as exc:
+            no_return(exc, x, mask, dt, cfg, lp)
+            return [-1] * B, [set() for _ in range(B)]
         except (AssertionError, RuntimeError) as exc:     # the code's own "infeasible action selected" assertion, or multinomial refusing the weights
             record_spec("greedy/sampling: decoding-step-raises", "%s: %s" % (type(exc).__name__, str(exc)[:200]),
                         x[0], [bool(b_) for b_ in mask[0]], dt, cfg, [float(v) for v in lp[0]])
@@ -334,6 +401,7 @@ def run(ctx: Ctx, proofs_ok: bool):
                         "impl_probs": [[round(math.exp(float(v)), 6) if float(v) != -math.inf else 0.0 for v in row] for row in lp],
                         "greedy": ga, "sampled": [sorted(s_) for s_ in sampled]})
 
+    mark("A_ln2_grid_python")
     # ------------------------------------------------------------------ B. exact stream (threshold met with equality)
     n_eq_hit = 0
     for b in range(n_exact):
@@ -367,6 +435,7 @@ def run(ctx: Ctx, proofs_ok: bool):
         ctx.count("exact_stream_rows")
     ctx.count("exact_stream_rows_threshold_met_with_equality", n_eq_hit)
 
+    mark("B_exact_python")
     try:
         codes = coq_eval_shards("cases_C10_pl", HEADER, "pl_case", "check_pl", cases, shard=max(60, len(cases) // 16 + 1))
     except RuntimeError as e:
@@ -393,6 +462,7 @@ def run(ctx: Ctx, proofs_ok: bool):
                               % (len(bad), len(codes), i, cde, names.get(cde, "?"), {k_: meta[i][k_] for k_ in ("stream", "dtype", "temperature", "top_k", "top_p", "z", "mask", "impl_logprobs")}))
             broken_cases = [meta[i] for i, _ in bad[:25]]
 
+    mark("AB_coq")
     # ------------------------------------------------------------------ C. float stream: spec-on-impl only
     def float_stream(count, tag):
         for b in range(count):
@@ -484,6 +554,274 @@ def run(ctx: Ctx, proofs_ok: bool):
     if tiny:
         spec_fail.append((SIG_TINY_P, min(tiny, key=lambda t: len(t["logits"]))))
 
+    mark("CD_float_and_probes")
+    # ------------------------------------------------------------------ E. calculate_entropy: value and guard
+    n_ent = 420 if thorough else 110
+    n_entg = 160 if thorough else 48
+    ent_cases, ent_meta = [], []
+
+    def exact_dist(z, mr, tm, td_, k):
+        """SPEC: the masked normalised distribution at weights 2^z after the top-k rank rule, as Fractions"""
+        pre, kept, _ = ref_row(z, mr, tm, td_, k)
+        zmax = max(pre[i] for i in kept)
+        wts = {i: Fraction(2) ** (pre[i] - zmax) for i in kept}
+        tot = sum(wts.values())
+        return [wts.get(i, Fraction(0)) / tot for i in range(len(z))]
+
+    def entropy_case(zs, masks, tname, k, dt, what):
+        """zs[b][t] = z list, masks[b][t] = mask; one call calculate_entropy(logprobs[B, T, N])"""
+        T_, tm, td_ = TEMPS[tname]
+        Bn, Tn = len(zs), len(zs[0])
+        cfg = {"temperature": T_, "top_p": 0.0, "top_k": k, "tanh_clipping": 0}
+        steps = []
+        for t in range(Tn):
+            x = torch.tensor([[v * LN2 for v in zs[b][t]] for b in range(Bn)], dtype=dt)
+            mk = torch.tensor([masks[b][t] for b in range(Bn)], dtype=torch.bool)
+            steps.append(call_pl(x, mk, cfg))
+        lp = torch.stack(steps, 1)                                       # [B, T, N]
+        rep = {"unit": "calculate_entropy", "kind": "entropy", "what": what, "dtype": str(dt).replace("torch.", ""),
+               "z (logit = z*ln2)": zs, "mask": masks, "kwargs": cfg,
+               "logprobs_hex": [[hexlist(r) for r in row] for row in lp]}
+        try:
+            H = dg.call("calculate_entropy", calculate_entropy, lp.clone())
+        except dg.DecodeTimeout as exc:
+            spec_fail.append((dg.signature(exc.fn_name), dict(rep, kind="no-return")))
+            return
+        except AssertionError as exc:
+            spec_fail.append((SIG_ENT_RAISE, dict(rep, observed="AssertionError: %s" % str(exc)[:100])))
+            return
+        Hl = [float(v) for v in H.reshape(-1)]
+        tol = (2e-5 if dt == torch.float32 else 1e-8)
+        spec = []
+        for b in range(Bn):
+            h = 0.0
+            for t in range(Tn):
+                for pq in exact_dist(zs[b][t], masks[b][t], tm, td_, k):
+                    if pq > 0:
+                        h -= float(pq) * math.log(pq)
+            spec.append(h)
+        rep.update(observed_entropy=Hl, expected_entropy=spec)
+        if len(Hl) != Bn:
+            spec_fail.append((SIG_ENT_VALUE, dict(rep, what="one value per batch row expected, got shape %s" % (tuple(H.shape),))))
+            return
+        for b in range(Bn):
+            if Hl[b] < -tol:
+                spec_fail.append((SIG_ENT_NEG, dict(rep, row=b)))
+            elif abs(Hl[b] - spec[b]) > tol * max(1, Tn):
+                spec_fail.append((SIG_ENT_VALUE, dict(rep, row=b)))
+        ent_cases.append("mk_ent %s %s %s %s %s %s" % (
+            cz(tm), cz(td_), cnat(min(k, 4000)),
+            clist(clist("(%s, %s)" % (clist(cz(v) for v in zs[b][t]), cboollist(masks[b][t])) for t in range(Tn)) for b in range(Bn)),
+            clist(cq(Fraction(v)) for v in Hl), cq(Fraction(tol * max(1, Tn)).limit_denominator(10 ** 12))))
+        ent_meta.append({"stream": what, "dtype": str(dt).replace("torch.", ""), "temperature": tname, "top_k": k, "z": zs, "mask": masks,
+                         "impl_entropy": Hl, "spec_entropy": spec})
+        nontriv = any(sum(masks[b][t]) >= 2 for b in range(Bn) for t in range(Tn))
+        ctx.seen({"ent": zs, "m": masks, "T": tname, "k": k, "dt": str(dt)}, nontrivial=nontriv)
+        ctx.count("entropy_calls")
+        ctx.count("entropy_rows", Bn)
+        ctx.count("entropy_" + what)
+        if len(ctx.samples) < 5 and what == "audit":
+            ctx.sample({"stream": "calculate_entropy", "z (logit = z*ln2)": zs, "mask": masks, "entropy": Hl, "expected": spec})
+
+    # the audit's input log([[[.5, .5]]]) -> + ln 2, uniform over k, point masses, (1/2, 1/4, 1/4), several steps / rows
+    for dt in (torch.float64, torch.float32):
+        entropy_case([[[0, 0]]], [[[True, True]]], "1", 0, dt, "audit")
+        for kf in (1, 2, 3, 4, 8):
+            entropy_case([[[5] * kf + [9]]], [[[True] * kf + [False]]], "1", 0, dt, "uniform")
+            entropy_case([[[2] * kf] * 3, [[-4] * kf] * 3], [[[True] * kf] * 3] * 2, "1/2", 0, dt, "uniform")
+        entropy_case([[[1, 0, 0]], [[3, 7, 1]]], [[[True, True, True]], [[False, True, False]]], "1", 0, dt, "dyadic")
+        entropy_case([[[2, 1, 0, 0], [0, 0, 0, 0]]], [[[True] * 4, [True, False, True, False]]], "1", 0, dt, "dyadic")
+    for b in range(n_ent):
+        n = rng.randint(1, 8)
+        Bn = rng.randint(1, 4)
+        Tn = rng.randint(1, 4)
+        dt = torch.float64 if rng.random() < 0.5 else torch.float32
+        tname = rng.choice(["1", "1", "1/2", "2"])
+        even = TEMPS[tname][2] == 2
+        zs = [[gen_z(rng, n, rng.choice(["small", "small", "wide", "equal", "clusters"]), even) for _ in range(Tn)] for _ in range(Bn)]
+        for row in zs:                              # keep the rationals small: |z| <= 12 in this stream
+            for t in range(Tn):
+                row[t] = [max(-12, min(12, v)) for v in row[t]]
+        masks = [[gen_mask(rng, n, rng.choice(["random", "random", "random", "single", "all"])) for _ in range(Tn)] for _ in range(Bn)]
+        k = rng.choice([0, 0, 0, 1, 2, 3, n])
+        entropy_case(zs, masks, tname, k, dt, "random")
+    mark("E_entropy_python")
+    if ent_cases:
+        try:
+            ecodes = coq_eval_shards("cases_C10_ent", HEADER, "ent_case", "check_ent", ent_cases, shard=max(12, len(ent_cases) // 12 + 1))
+        except RuntimeError as e:
+            ecodes = None
+            ctx.broken.append("correspondence C10/calculate_entropy could not be evaluated: %s" % str(e)[-600:])
+        if ecodes is not None:
+            ebad = [(i, c) for i, c in enumerate(ecodes) if c != 0]
+            ctx.units["calculate_entropy (value) vs Decoding/Entropy.v at (Qc, lnQ)"] = {
+                "cases": len(ecodes), "rows": ctx.dist.get("entropy_rows", 0), "disagreements": len(ebad)}
+            if ebad:
+                i, c = ebad[0]
+                enames = {21: "step outside the model's well-formedness", 22: "number of rows", 3: "value differs", 4: "value differs: wrong sign"}
+                ctx.broken.append("correspondence C10/calculate_entropy: model and implementation differ on %d of %d calls (first: call %d, code %d = row %d, %s) %s"
+                                  % (len(ebad), len(ecodes), i, c, c // 1000, enames.get(c % 1000 if c >= 1000 else c, "?"), ent_meta[i]))
+
+    mark("E_entropy_coq")
+    # the guard: a +inf log-probability in none / one / several / all rows of a batch of >= 2 rows
+    eg_cases, eg_meta = [], []
+    for b in range(n_entg):
+        Bn = rng.randint(2, 4)
+        Tn = rng.randint(1, 2)
+        n = rng.randint(2, 4)
+        dt = torch.float64 if rng.random() < 0.5 else torch.float32
+        x = torch.tensor([[[rng.randint(-3, 3) * LN2 for _ in range(n)] for _ in range(Tn)] for _ in range(Bn)], dtype=dt)
+        mk = torch.tensor([[gen_mask(rng, n, "random") for _ in range(Tn)] for _ in range(Bn)], dtype=torch.bool)
+        cfg = {"temperature": 1.0, "top_p": 0.0, "top_k": 0, "tanh_clipping": 0}
+        lp = torch.stack([call_pl(x[:, t], mk[:, t], cfg) for t in range(Tn)], 1)
+        nbad = rng.choice([0, 1, 1, 1, 1, 2, Bn]) if b >= 4 else (1, 1, 0, Bn)[b]
+        bad_rows = set(rng.sample(range(Bn), min(nbad, Bn)))
+        for r in range(Bn):
+            if r in bad_rows:
+                lp[r, rng.randrange(Tn), rng.randrange(n)] = math.inf
+            elif rng.random() < 0.3:
+                lp[r, rng.randrange(Tn), rng.randrange(n)] = math.nan          # nan_to_num(nan=0.0): harmless
+        classes = [[(2 if v == math.inf else 1 if v == -math.inf else 3 if math.isnan(v) else 0) for v in (float(u) for u in lp[r].reshape(-1))]
+                   for r in range(Bn)]
+        rep = {"unit": "calculate_entropy", "kind": "entropy-guard", "dtype": str(dt).replace("torch.", ""),
+               "logprobs_hex": [[hexlist(r_) for r_ in row] for row in lp], "rows_with_a_+inf_log_probability": sorted(bad_rows)}
+        try:
+            H = dg.call("calculate_entropy", calculate_entropy, lp.clone())
+            raised = False
+            rep["observed"] = [float(v) for v in H.reshape(-1)]
+        except dg.DecodeTimeout as exc:
+            spec_fail.append((dg.signature(exc.fn_name), dict(rep, kind="no-return")))
+            continue
+        except AssertionError as exc:
+            raised = True
+            rep["observed"] = "AssertionError: %s" % str(exc)[:80]
+        if bad_rows and not raised:
+            spec_fail.append((SIG_ENT_GUARD, dict(rep, what="%d of %d rows hold a +inf log-probability (entropy -inf); the call must raise 'Entropy is not finite' "
+                                                  "but returned %s" % (len(bad_rows), Bn, rep["observed"]))))
+        if raised and not bad_rows:
+            spec_fail.append((SIG_ENT_RAISE, dict(rep, what="no row holds a +inf log-probability, the call raised")))
+        eg_cases.append("(%s, %s)" % (clist(cnatlist(c_) for c_ in classes), "true" if raised else "false"))
+        eg_meta.append({"B": Bn, "bad_rows": sorted(bad_rows), "raised": raised})
+        ctx.seen({"entg": rep["logprobs_hex"]}, nontrivial=0 < len(bad_rows) < Bn)
+        ctx.count("entropy_guard_calls")
+        ctx.count("entropy_guard_bad_rows_%s" % ("none" if not bad_rows else "all" if len(bad_rows) == Bn else "some"))
+
+    # ------------------------------------------------------------------ F. batch-level guards of greedy / sampling / BeamSearch._step
+    n_guard = 500 if thorough else 150
+    g_cases, g_meta = [], []
+
+    def dyadic_row(n):
+        """a probability vector with entries k/64"""
+        cuts = sorted(rng.randint(0, 64) for _ in range(n - 1))
+        parts = [b_ - a_ for a_, b_ in zip([0] + cuts, cuts + [64])]
+        return [Fraction(v, 64) for v in parts]
+
+    def first_argmax(row):
+        return max(range(len(row)), key=lambda i: (row[i], -i))
+
+    for b in range(n_guard):
+        kind = (0, 1, 2)[b % 3]
+        Bn = rng.randint(2, 5)
+        n = rng.randint(2, 6)
+        dt = torch.float64 if rng.random() < 0.5 else torch.float32
+        nbad = rng.choice([0, 1, 1, 1, 1, 2, Bn]) if b >= 9 else (1, 1, 1, 0, 0, 0, Bn, 2, 1)[b]
+        nbad = min(nbad, Bn)
+        bad_rows = set(rng.sample(range(Bn), nbad))
+        probs = [dyadic_row(n) for _ in range(Bn)]
+        masks = [gen_mask(rng, n, "random") for _ in range(Bn)]
+        sel = [0] * Bn
+        if kind == 1:
+            # sampling: a bad row puts 1/2 .. 7/8 of its mass on a masked action and the rest on an allowed one; at most two bad rows
+            bad_rows = set(sorted(bad_rows)[:2])
+            for r in range(Bn):
+                if r in bad_rows:
+                    keep, other = rng.sample(range(n), 2)
+                    f = Fraction(rng.choice([8, 16, 32]), 64)
+                    probs[r] = [f if i == keep else 1 - f if i == other else Fraction(0) for i in range(n)]
+                    masks[r] = [i == keep or (i != other and rng.random() < 0.5) for i in range(n)]
+                else:
+                    masks[r] = [probs[r][i] > 0 or rng.random() < 0.3 for i in range(n)]
+        else:
+            for r in range(Bn):
+                a = first_argmax(probs[r]) if kind == 0 else rng.randrange(n)
+                sel[r] = a
+                masks[r][a] = r not in bad_rows
+                if not any(masks[r]):
+                    masks[r][(a + 1) % n] = True
+        lp = torch.tensor([[math.log(v) if v > 0 else -math.inf for v in row] for row in probs], dtype=torch.float64).to(dt)
+        mk = torch.tensor(masks, dtype=torch.bool)
+        name = ("DecodingStrategy.greedy", "DecodingStrategy.sampling", "BeamSearch._step")[kind]
+        rep = {"unit": name, "kind": "batch-guard", "dtype": str(dt).replace("torch.", ""), "probs_64ths": [[int(v * 64) for v in row] for row in probs],
+               "logprobs_hex": [hexlist(r_) for r_ in lp], "mask": masks, "rows_whose_selection_is_masked": sorted(bad_rows)}
+        parent = list(range(Bn))
+        if dg.dead(name):
+            continue
+        try:
+            if kind == 0:
+                out = dg.call(name, DecodingStrategy.greedy, lp.clone(), mk.clone())
+            elif kind == 1:
+                tseed = rng.randrange(2 ** 31)
+                rep["torch_seed"] = tseed
+                torch.manual_seed(tseed)
+                out = dg.call(name, DecodingStrategy.sampling, lp.clone(), mk.clone())
+            else:
+                rng.shuffle(parent)
+                rep["selected"], rep["parent_beam"] = sel, parent
+                bs = BeamSearch(beam_width=2, select_best=False)
+                bs._make_beam_step = lambda logprobs, _s=sel, _p=parent: (torch.tensor(_s), torch.tensor(_p))
+                masks_in = [None] * Bn                      # _step re-indexes td / logprobs / mask by the parent beam
+                for r in range(Bn):
+                    masks_in[parent[r]] = masks[r]
+                rep["mask_before_reindexing"] = masks_in
+                out = dg.call(name, bs._step, lp.clone(), torch.tensor(masks_in, dtype=torch.bool), TensorDict({}, batch_size=[Bn]))[1]
+            obs = [int(a) for a in out]
+        except dg.DecodeTimeout as exc:
+            spec_fail.append((dg.signature(exc.fn_name), dict(rep, kind="no-return", what="%s(logprobs, mask) did not return within %.0f s" % (name, exc.secs))))
+            ctx.count("guarded_calls_that_did_not_return")
+            continue
+        except AssertionError as exc:
+            obs = None
+            rep["observed"] = "AssertionError: %s" % str(exc)[:80]
+        if obs is not None:
+            rep["observed"] = obs
+            wrong = [r for r in range(Bn) if not (0 <= obs[r] < n) or not masks[r][obs[r]] or (kind == 1 and probs[r][obs[r]] == 0)]
+            if wrong:
+                spec_fail.append(((SIG_GREEDY_BATCH, SIG_SAMPLING_BATCH, SIG_BEAM_BATCH)[kind],
+                                  dict(rep, what="returned %s: the action of row(s) %s is masked in that row (batch of %d rows, %d of them with a masked selection)"
+                                       % (obs, wrong, Bn, len(bad_rows)))))
+        elif kind == 1 or not bad_rows:
+            spec_fail.append(((SIG_GREEDY_RAISE, SIG_SAMPLING_RAISE, SIG_BEAM_RAISE)[kind],
+                              dict(rep, what="raised although %s" % ("every row has an allowed action of positive probability: the masked draw of row(s) %s must be "
+                                                                     "drawn again" % sorted(bad_rows) if kind == 1 else "no row selects a masked action"))))
+        g_cases.append("mk_guard %s %s %s %s" % (
+            cnat(kind), clist("(%s, %s)" % (clist(cq(v) for v in probs[r]), cboollist(masks[r])) for r in range(Bn)),
+            cnatlist(sel if kind == 2 else []), "None" if obs is None else "(Some %s)" % cnatlist(obs)))
+        g_meta.append(dict(rep, fn=name))
+        ctx.seen({"guard": kind, "p": rep["probs_64ths"], "m": masks, "dt": str(dt), "sel": sel}, nontrivial=0 < len(bad_rows) < Bn)
+        ctx.count("batch_guard_calls_" + name)
+        ctx.count("batch_guard_bad_rows_%s" % ("none" if not bad_rows else "all" if len(bad_rows) == Bn else "exactly_one" if len(bad_rows) == 1 else "several"))
+    mark("EF_guards_python")
+    for unit, ctype, fn, cs, ms in (("calculate_entropy (isfinite guard)", "entg_case", "check_entg", eg_cases, eg_meta),
+                                    ("batch guards (greedy / sampling / BeamSearch._step) vs Decoding/BatchGuards.v", "guard_case", "check_guard", g_cases, g_meta)):
+        if not cs:
+            continue
+        try:
+            gcodes = coq_eval_shards("cases_C10_" + fn, HEADER, ctype, fn, cs, shard=max(20, len(cs) // 6 + 1))
+        except RuntimeError as e:
+            ctx.broken.append("correspondence C10/%s could not be evaluated: %s" % (unit, str(e)[-600:]))
+            continue
+        gbad = [(i, c) for i, c in enumerate(gcodes) if c != 0]
+        ctx.units[unit] = {"cases": len(gcodes), "disagreements": len(gbad)}
+        if gbad:
+            i, c = gbad[0]
+            gnames = {25: "model raises, implementation returned", 26: "implementation raised, model returns", 31: "model raises, implementation returned",
+                      32: "model returns, implementation raised", 33: "returned actions differ", 34: "sampled action masked or of probability 0",
+                      35: "a row without admissible action of positive probability"}
+            ctx.broken.append("correspondence C10/%s: model and implementation differ on %d of %d calls (first: call %d, code %d = %s) %s"
+                              % (unit, len(gbad), len(gcodes), i, c, gnames.get(c, "?"), str(ms[i])[:600]))
+    mark("EF_guards_coq")
+    ctx.extra["decode_guard"] = dg.evidence()
+
     # ------------------------------------------------------------------ search when a proof or the correspondence broke
     if (ctx.broken or not proofs_ok) and not [s for s in spec_fail if s[0] not in (SIG_SHIFT_TANH, SIG_TINY_P)]:
         # neighbourhood of the disagreeing rows: every top_k, a grid of top_p, both dtypes
@@ -520,6 +858,8 @@ def run(ctx: Ctx, proofs_ok: bool):
 def replay(obj):
     import torch
     from rl4co.utils.decoding import process_logits
+    if obj.get("kind") in ("entropy", "entropy-guard", "batch-guard", "no-return"):
+        return replay_batch(obj)
     if "logits_hex" not in obj:
         import json
         print(json.dumps(obj, indent=1)[:4000])
@@ -551,3 +891,76 @@ def replay(obj):
     fails = spec_row([float(v) for v in lp[0]], obj["mask"], xp, kw["top_k"], kw["top_p"], 1e-5 if dt == torch.float32 else 1e-9)
     print("property evaluated on the current output:", fails if fails else "holds (normalised, masked=0, arg-max kept, top-k rule, top-p mass)")
     return 0
+
+
+def replay_batch(obj):
+    """records of the calculate_entropy / batch-guard streams: the recorded log-probabilities are handed to the real function again"""
+    import torch
+    from tensordict import TensorDict
+    from rl4co.utils.decoding import DecodingStrategy, BeamSearch
+    from rl4co.utils.ops import calculate_entropy
+    print("signature :", obj.get("signature"))
+    print("what      :", obj.get("what"))
+    unit = obj.get("unit")
+    dt = getattr(torch, obj.get("dtype", "float64"))
+    if obj.get("logprobs_hex") is None:
+        import json
+        print(json.dumps(obj, indent=1)[:3000])
+        return 0
+
+    def unhex(o):
+        return [unhex(v) for v in o] if isinstance(o, list) else float.fromhex(o)
+    lp = torch.tensor(unhex(obj["logprobs_hex"]), dtype=torch.float64).to(dt)
+    print("function  :", unit, " log-probabilities of shape", tuple(lp.shape), obj.get("dtype"))
+    print("probs     :", [[round(float(v), 6) for v in row.reshape(-1)] for row in lp.exp()])
+
+    def attempt(fn, *a):
+        try:
+            return "returned", dg.call(unit, fn, *a)
+        except dg.DecodeTimeout as exc:
+            return "did not return within %.0f s" % exc.secs, None
+        except AssertionError as exc:
+            return "raised AssertionError: %s" % str(exc)[:80], None
+    bad = False
+    if unit == "calculate_entropy":
+        how, H = attempt(calculate_entropy, lp.clone())
+        print("observed now:", how, None if H is None else [float(v) for v in H.reshape(-1)])
+        print("recorded    :", obj.get("observed_entropy", obj.get("observed")))
+        if "expected_entropy" in obj:
+            print("expected (sum over steps of -sum p log p, exact distributions):", obj["expected_entropy"])
+            bad = H is None or any(abs(float(a) - b) > 1e-4 for a, b in zip(H.reshape(-1), obj["expected_entropy"]))
+        else:
+            rows = obj.get("rows_with_a_+inf_log_probability", [])
+            print("rows with a +inf log-probability:", rows, "-> expected:", "raise 'Entropy is not finite'" if rows else "return")
+            bad = (H is not None) == bool(rows) or how.startswith("did not")
+    else:
+        mk = torch.tensor(obj["mask"], dtype=torch.bool)
+        print("mask      :", obj["mask"], " rows whose selection is masked:", obj.get("rows_whose_selection_is_masked"))
+        if unit == "DecodingStrategy.greedy":
+            how, out = attempt(DecodingStrategy.greedy, lp.clone(), mk)
+        elif unit == "DecodingStrategy.sampling":
+            torch.manual_seed(obj.get("torch_seed", 0))
+            how, out = attempt(DecodingStrategy.sampling, lp.clone(), mk)
+        elif unit == "BeamSearch._step":
+            bs = BeamSearch(beam_width=2, select_best=False)
+            bs._make_beam_step = lambda logprobs: (torch.tensor(obj["selected"]), torch.tensor(obj["parent_beam"]))
+            how, out = attempt(bs._step, lp.clone(), torch.tensor(obj["mask_before_reindexing"], dtype=torch.bool), TensorDict({}, batch_size=[lp.shape[0]]))
+            out = None if out is None else out[1]
+        else:
+            print("(no executable replay for unit %r)" % unit)
+            return 0
+        acts = None if out is None else [int(a) for a in out]
+        print("observed now:", how, acts)
+        print("recorded    :", obj.get("observed"))
+        masked = obj.get("rows_whose_selection_is_masked", [])
+        if acts is not None:
+            wrong = [r for r, a in enumerate(acts) if not obj["mask"][r][a]]
+            print("rows whose returned action is masked:", wrong)
+            bad = bool(wrong)
+        else:
+            bad = how.startswith("did not") or unit == "DecodingStrategy.sampling" or not masked
+        print("expected (per-row verdict lifted to the batch):",
+              "every masked draw is drawn again, allowed actions are returned" if unit == "DecodingStrategy.sampling"
+              else "raise 'infeasible action selected'" if masked else "return")
+    print("property %s on the current tree" % ("FAILS" if bad else "holds"))
+    return 1 if bad else 0
